@@ -19,6 +19,23 @@ import (
 	"verifharness/mbt"
 )
 
+func nextPowerOf(cfg map[string]interface{}) map[int64][]int64 {
+	out := map[int64][]int64{}
+	np, ok := cfg["NextPower"].(map[string]interface{})
+	if !ok {
+		return out
+	}
+	for k, v := range np {
+		h, _ := strconv.Atoi(k)
+		var pw []int64
+		for _, x := range v.([]interface{}) {
+			pw = append(pw, int64(mbt.Int(x)))
+		}
+		out[int64(h)] = pw
+	}
+	return out
+}
+
 func scaleOf(cfg map[string]interface{}) int {
 	if v, ok := cfg["Scale"]; ok {
 		return mbt.Int(v)
@@ -47,13 +64,14 @@ func intsOf(v interface{}) []int {
 
 // tables computes, with the real ValidatorSet code, the proposer of (h, r) as a running node sees it and the
 // round-0 proposer as a node sees it whose validator set went through State.Save/LoadState.
-func tables(powers []int64, maxH, maxR int) (live [][]int, stale []int, err error) {
+func tables(powers []int64, maxH, maxR int, next map[int64][]int64) (live [][]int, stale []int, err error) {
 	dir, _ := ioutil.TempDir("", "csim-tab-")
 	defer os.RemoveAll(dir)
 	s, err := csim.New(dir, powers, nil, int64(maxR))
 	if err != nil {
 		return nil, nil, err
 	}
+	s.NextPower = next
 	defer s.Close()
 	n := s.Nodes[1]
 	vs := n.State.Validators.Copy()
@@ -70,8 +88,9 @@ func tables(powers []int64, maxH, maxR int) (live [][]int, stale []int, err erro
 		live = append(live, row)
 		// what a restarted node reports: the validator set goes through the real State.Save / LoadState
 		stale = append(stale, s.IdxOfAddr(csim.ReloadThroughState(s.Genesis, vs, int64(h-1)).Proposer().Address))
-		// next height: ExecBlock does nextValSet.IncrementAccum(1)
+		// next height: ExecBlock lets EndBlock change the copy, then nextValSet.IncrementAccum(1)
 		vs = vs.Copy()
+		s.ApplyChange(vs, int64(h+1))
 		vs.IncrementAccum(1)
 	}
 	return live, stale, nil
@@ -139,6 +158,7 @@ func replayOne(ti int, tr mbt.Trace, rep *mbt.Report) {
 		return
 	}
 	defer s.Close()
+	s.NextPower = nextPowerOf(tr.Cfg)
 	s.Start()
 	var live [][]int
 	var stale []int
@@ -495,7 +515,7 @@ func main() {
 			fmt.Fprintln(os.Stderr, err)
 			os.Exit(2)
 		}
-		live, stale, err := tables(powersOf(cfg), mbt.Int(cfg["MaxHeight"]), mbt.Int(cfg["MaxRound"]))
+		live, stale, err := tables(powersOf(cfg), mbt.Int(cfg["MaxHeight"]), mbt.Int(cfg["MaxRound"]), nextPowerOf(cfg))
 		if err != nil {
 			fmt.Fprintln(os.Stderr, err)
 			os.Exit(2)
